@@ -77,6 +77,12 @@ def gen_calls(ctx, rng, n):
               "10:30 2147483648s", "99999999999999999999s", "0.5h", "1.999999999999999999999999999999999m"]:
         for fz in (False, True):
             calls.append(L.Call(t, fuzzy=fz, fwt=fz, tag="seed"))
+    # texts in which NOTHING is skipped (no blank, no jump word), with fuzzy_with_tokens: the pair must still come back
+    for t in ["10h36m28.5s", "25/09/03", "20030925", "1.5", "2003-09-25T10:49:41", "Sep", "10:36", "20030925T104941", "10:36:28.5",
+              "2003-09-25T10:49:41Z", "0930", "Monday", "99", "1/2/3", "10h", "Sep25", "2003-09-25T10:49:41+03:00"]:
+        calls.append(L.Call(t, fuzzy=True, fwt=True, tag="seed-noskip"))
+        calls.append(L.Call(t, fuzzy=False, fwt=True, tag="seed-noskip"))
+        calls.append(L.Call(t, fuzzy=True, fwt=False, tag="seed-noskip"))
     calls.append(L.Call("Monday", default=datetime.datetime(9999, 12, 31), tag="seed"))
     calls.append(L.Call("Sunday", default=datetime.datetime(9999, 12, 27), tag="seed"))
     return calls
@@ -341,8 +347,9 @@ def oracle(ctx):
             for _ in range(ctx.budget(2500, 20000)):
                 t = rng.choice(G.TEMPLATES)
                 txt = G.render(t, G.boundary_dt(rng), rng.choice(G.OFFSETS) if t['time'] else None)
+                fw = rng.random() < 0.3             # valid renderings mostly have NO skipped token: the pair must still come back
                 calls.append(L.Call(txt, default=rng.choice(G.DEFAULTS), dayfirst=t['flags'].get('dayfirst'),
-                                    yearfirst=t['flags'].get('yearfirst'), tag="template"))
+                                    yearfirst=t['flags'].get('yearfirst'), fuzzy=fw, fwt=fw, tag="template"))
             for _ in range(ctx.budget(2500, 20000)):
                 ptxt, fields, _wd = _c15.partial(rng)
                 z = rng.choice(_c15.ZONES)[0] if 'hour' in fields else ''
@@ -355,14 +362,7 @@ def oracle(ctx):
             for c in calls:
                 ans, dt, raw = L.run_impl(c, raw=True)
                 first.append(ans)
-                ok = classify(ans)
-                if ok and ans.startswith("ok "):
-                    # the value really is a datetime / (datetime, tuple of str)
-                    if c.fwt:
-                        ok = (isinstance(raw, tuple) and len(raw) == 2 and isinstance(raw[0], datetime.datetime)
-                              and isinstance(raw[1], tuple) and all(isinstance(x, str) for x in raw[1]))
-                    else:
-                        ok = isinstance(raw, datetime.datetime)
+                ok = classify(ans)                  # a value of the wrong shape for the options is "shape …": not allowed
                 ctx.case(c.key(), nontrivial=ans.startswith("ok "))
                 ctx.count("outcome_" + (ans.split(" ")[1] if ans.startswith("err") else "datetime"))
                 ctx.count("via_" + c.via)
